@@ -284,6 +284,9 @@ impl<'a> V<'a> {
                     if n.chunks.iter().any(|c| *c > 64) {
                         self.err("wrong_size", path, "bounded_bytes chunk over 64 bytes");
                     }
+                    if b.len() <= 64 {
+                        self.err("indefinite_length", path, "byte string of at most 64 bytes written in chunked form");
+                    }
                 } else if b.len() > 64 {
                     self.err("wrong_size", path, "definite byte string over 64 bytes in plutus data");
                 }
